@@ -159,16 +159,21 @@ def trimTrailingSpaces : Str → Str
     let r' := trimTrailingSpaces r
     if c = ' ' ∧ r' = [] then [] else c :: r'
 
-/-- one line of a `.gitignore` (`add_patterns_from_buffer` + `parse_path_pattern`) -/
+def mkPat2 (neg dirOnly : Bool) (l : Str) : Option GPat :=
+  if l = [] then none else
+  some { neg := neg, dirOnly := dirOnly, anchored := l.contains '/', pat := if l.head? = some '/' then l.drop 1 else l }
+
+/-- `parse_path_pattern` on the text after an optional `!`: trailing `/` = directories only; a `/`
+    elsewhere anchors the pattern at the directory of the file (the leading one is dropped) -/
+def mkPat (neg : Bool) (l : Str) : Option GPat :=
+  if l.getLast? = some '/' then mkPat2 neg true l.dropLast else mkPat2 neg false l
+
+/-- one line of a `.gitignore` (`add_patterns_from_buffer` + `parse_path_pattern`): empty lines and
+    lines starting with `#` are skipped, trailing blanks trimmed, a leading `!` negates -/
 def parseLine (line : Str) : Option GPat :=
   if line = [] ∨ line.head? = some '#' then none else
   let l := trimTrailingSpaces line
-  let neg := l.head? = some '!'
-  let l := if neg then l.drop 1 else l
-  let dirOnly := l.getLast? = some '/'
-  let l := if dirOnly then l.dropLast else l
-  if l = [] then none else
-  some { neg := neg, dirOnly := dirOnly, anchored := l.contains '/', pat := if l.head? = some '/' then l.drop 1 else l }
+  if l.head? = some '!' then mkPat true (l.drop 1) else mkPat false l
 
 def parseContent (content : Str) : List GPat := (rustLines content).filterMap parseLine
 
